@@ -38,6 +38,8 @@ namespace cgreen {
 /* Utility: */
 int get_significant_figures(void);
 void significant_figures_for_assert_double_are(int figures);
+/* used by the legacy assert_double_[not_]equal_with_message() macros */
+bool doubles_are_equal(double tried, double expected);
 
 #include <cgreen/legacy.h>
 
